@@ -310,6 +310,32 @@ def _siblings(r, p):
         shapes[k] = {"guard": guard, "handlers": handlers}
         if handlers != ["KeyError"]:
             r.fail("C12.siblings", k + ":handlers", "reader swallows %s (expected KeyError only: a broader handler hides configuration mistakes)" % handlers, fi.loc())
+    # every configured entry is visited: no reader leaves its loop early
+    for k in keys + ["vsg.rule:configure_group_rule_attributes"]:
+        fi = p.function(k)
+        loops = [n for n in walk_function(fi.node) if isinstance(n, ast.For)]
+        if not loops:
+            r.fail("C12.siblings", k + ":loop", "reader no longer iterates the configured names", fi.loc())
+            continue
+        early = [x for lp in loops for x in ast.walk(lp) if isinstance(x, (ast.Break, ast.Return))]
+        if early:
+            r.fail(
+                "C12.siblings",
+                k + ":early-exit",
+                "reader leaves its loop after the first match (%s): further configured %s are silently ignored" % (type(early[0]).__name__.lower(), "groups the rule belongs to" if "group" in k else "attributes"),
+                fi.loc(early[0]),
+            )
+        else:
+            r.ok("C12.siblings", k + ":visits-all", "iterates every configured entry (%s)" % norm(loops[0].iter)[:60])
+    gfi = p.function("vsg.rule:configure_group_rule_attributes")
+    gl = [n for n in walk_function(gfi.node) if isinstance(n, ast.For)]
+    if gl:
+        tests = [norm(x.test) for x in ast.walk(gl[0]) if isinstance(x, ast.If)]
+        v = gl[0].target.id if isinstance(gl[0].target, ast.Name) else "?"
+        if tests == ["%s in self.groups" % v]:
+            r.ok("C12.siblings", gfi.key + ":membership", "group settings applied iff the rule is a member of the group")
+        else:
+            r.fail("C12.siblings", gfi.key + ":membership", "group settings applied under %s (expected exactly `%s in self.groups`)" % (tests, v), gfi.loc())
     guards = {k: v["guard"] for k, v in shapes.items()}
     base = guards[keys[2]]
     for k in keys:
@@ -412,6 +438,9 @@ VARIANTS = [
             [("vsg/rule_list.py", "                lDeprecatedMessages.extend(oRule.configure(oConfig))", "                oRule.configure(oConfig)")], rule="C12.validate"),
     Variant("C12", "rule normalises its option in analysis", "fire",
             [("vsg/rules/token_case.py", "        self.oRegex = re.compile(self.regex)", "        self.oRegex = re.compile(self.regex)\n        self.case = self.case.lower()")], rule="C12.effective"),
+    Variant("C12", "only the first matching group is applied", "fire",
+            [("vsg/rule.py", "            if sGroupName in self.groups:\n                configure_attribute(self, oConfig, sGroupName)\n", "            if sGroupName in self.groups:\n                configure_attribute(self, oConfig, sGroupName)\n                break\n")],
+            rule="C12.siblings", key="early-exit"),
     Variant("C12", "twin: reorder independent per-file helpers definition", "silent",
             [("vsg/apply_rules.py", "    sFileName = sFileName.replace(os.sep, \"/\")\n\n    configure_rules_per_rule_option", "    sFileName = sFileName.replace(os.sep, \"/\")\n    configure_rules_per_rule_option")]),
 ]
